@@ -1,6 +1,7 @@
 package vsim
 
 import (
+	"github.com/uber/tchannel-go/simrt"
 	"fmt"
 	"sync"
 	"time"
@@ -254,6 +255,13 @@ func famRawClient(w *World) {
 					w.violate("C10", "relay-timeout-not-single-error", "request %s (id %d): destination never completed, caller received %d error frames and %d final response fragments", p.tag, p.id, errs, resLast)
 				} else {
 					for _, f := range rc.Got {
+						if simrt.Cur().StallTime >= 3*time.Second {
+							// a goroutine of the relay was held back for longer than the relay's tombstone
+							// period: by then the relay has rightfully forgotten the call, and a late
+							// fragment of it is answered "not found" (still exactly one terminal frame)
+							w.probe("C10.stall-beyond-tombstone-period")
+							continue
+						}
 						if f.ID == p.id && f.Type == wire.TError && f.ErrCode != wire.ErrTimeout {
 							w.violate("C10", "relay-timeout-wrong-code", "request %s (id %d): destination never completed, caller got error code %#x instead of timeout", p.tag, p.id, f.ErrCode)
 						}
